@@ -8,7 +8,7 @@ import sys
 
 import numpy
 
-from ECAgent.Core import Agent, Component, Model, System
+from ECAgent.Core import Agent, Component, Environment, Model, System
 from ECAgent.Collectors import AgentCollector, Collector
 from ECAgent.Environments import GridWorld, SpaceWorld, PositionComponent
 from ECAgent.Batching import batch_run
@@ -17,7 +17,7 @@ from vf.engine import Violation, InvalidCase, quiesce
 
 PROPERTY = "C07"
 CASE_TIMEOUT_S = 40
-BUDGET = {"quick": 500, "thorough": 1500}
+BUDGET = {"quick": 700, "thorough": 2100}
 RULE = ("A scripted stochastic model (world plain / GridWorld / continuous SpaceWorld, wrap on/off; population 3-12 with mixed "
         "components and tags; system mix from {mover using model.random, picker via get_random_agent with/without template/tag/both, "
         "shuffler via shuffle with/without template/tag/both, birth/death driven by model.random}; an AgentCollector; 5-15 timesteps) is run with a generated "
@@ -169,6 +169,9 @@ class TraceCollector(Collector):
         self.records = model.trace
 
 
+DONORS = [0]
+
+
 class TrajModel(Model):
     def __init__(self, seed, cfg, perturb=None):
         super().__init__(seed=seed)
@@ -177,10 +180,25 @@ class TrajModel(Model):
         self.trace = [("seed", str(seed))]
         self.births = 0
         world = cfg.get("world", "plain")
+        owner = self
+        if cfg.get("donor_world"):
+            # the world is prepared by ANOTHER model (different seed every time, some draws already taken) and then handed
+            # over with the documented set_model() + set_environment(): from then on it must draw from THIS model's generator
+            DONORS[0] += 1
+            owner = Model(seed=7919 * DONORS[0] + 13)
+            for _ in range(DONORS[0] % 5):
+                owner.random.random()
         if world == "grid":
-            self.set_environment(GridWorld(self, 6, 4, wrap_env=bool(cfg.get("wrap"))))
+            env = GridWorld(owner, 6, 4, wrap_env=bool(cfg.get("wrap")))
         elif world == "space":
-            self.set_environment(SpaceWorld(self, 9.5, 7.25, wrap_env=bool(cfg.get("wrap"))))
+            env = SpaceWorld(owner, 9.5, 7.25, wrap_env=bool(cfg.get("wrap")))
+        else:
+            env = Environment(owner) if owner is not self else None
+        if env is not None:
+            if owner is not self:
+                owner.environment.get_random_agent()
+                env.set_model(self)
+            self.set_environment(env)
         for i in range(max(3, min(int(cfg.get("pop", 5)), 200))):
             a = Agent(f"a{i}", self, tag=i % 3)
             if i % 4 != 3:
@@ -270,6 +288,8 @@ def _run_case(case):
     if ref != again:
         raise Violation("same-seed-differs", _diff("two undisturbed runs with the same seed", ref, again, cfg, seed))
     labels = {cfg.get("world", "plain")}
+    if cfg.get("donor_world"):
+        labels.add("world-prepared-by-another-model")
     if int(cfg.get("pop", 5)) > 64:
         labels.add("population>64")
     pv = [int(v) for v in case.get("perturb") or [1]]
@@ -358,6 +378,7 @@ def strategy(tier):
                                       "shuffler_t", "shuffler_tag", "shuffler_both", "birthdeath"]), min_size=1, max_size=5)
     cfg = st.fixed_dictionaries({"world": st.sampled_from(["plain", "grid", "space"]), "wrap": st.booleans(), "pop": st.integers(3, 12),
                                  "systems": kinds, "steps": st.integers(5, 15),
+                                 "donor_world": st.sampled_from([False, False, False, False, True]),
                                  "complete_at": st.sampled_from([None, None, None, 2, 4, 7])})
     from vf.fixtures import near_pow2
     crowd = st.fixed_dictionaries({"world": st.sampled_from(["plain", "grid", "space"]), "wrap": st.booleans(), "pop": near_pow2(33, 130),
@@ -375,6 +396,11 @@ def strategy(tier):
     one = wone_of(st.fixed_dictionaries({"seed": seeds, "cfg": cfg}), st.fixed_dictionaries({"seed": big, "cfg": rich}),
                   st.fixed_dictionaries({"seed": st.sampled_from(["experiment-A", "", "run 7", "\u00e9", "label:experiment-B", "label:x"]), "cfg": rich}),
                   st.fixed_dictionaries({"seed": seeds, "cfg": rich}))
-    hashs = st.fixed_dictionaries({"kind": st.just("hashseed"), "configs": st.lists(one, min_size=8, max_size=8),
+    # every batch holds a str-subclass seed, a plain str seed and a seed beyond 2**64 with a randomness-rich configuration
+    label_one = st.fixed_dictionaries({"seed": st.sampled_from(["label:experiment-B", "label:x"]), "cfg": rich})
+    str_one = st.fixed_dictionaries({"seed": st.sampled_from(["experiment-A", "", "run 7", "\u00e9"]), "cfg": rich})
+    big_one = st.fixed_dictionaries({"seed": big, "cfg": rich})
+    batch = st.tuples(st.lists(one, min_size=5, max_size=5), label_one, str_one, big_one).map(lambda t: t[0] + [t[1], t[2], t[3]])
+    hashs = st.fixed_dictionaries({"kind": st.just("hashseed"), "configs": batch,
                                    "hashseeds": st.lists(wone_of(st.sampled_from([1, 4242]), st.integers(2, 2 ** 32 - 1)), min_size=2, max_size=3)})
     return st.integers(0, 49).flatmap(lambda k: hashs if k == 0 else single)
